@@ -317,11 +317,12 @@ pub fn worker(ctx: &Ctx, res: &mut ShardResult) {
     // shard over (initial state, first action)
     let mut idx = 0usize;
     for init in &inits {
-        let firsts: Vec<Act> = (0..n).map(Act::Step).collect();
+        // (a fresh library needs no compile: two loaders suffice there)
+        let nn = if thorough && init.lib == "fresh" { 2 } else { n };
+        let firsts: Vec<Act> = (0..nn).map(Act::Step).collect();
         for f in firsts {
             idx += 1;
             if !ctx.mine(idx) { continue; }
-            let nn = if thorough && init.lib == "fresh" { 2 } else { n };
             explore(ctx, &env, init, nn, mc, mt, Some(f), res);
             if res.too_many() || ctx.out_of_time() { let _ = std::fs::remove_dir_all(&env.root); return; }
         }
